@@ -1149,3 +1149,168 @@ func init() {
 		return IfaceV{typ: iv.typ, val: n}, nil
 	})
 }
+
+// ---------- a minimal reflect.Value model (ValueOf / Index / Elem / Kind / String / Len / Int) ----------
+// A reflect.Value is kept as its three cells with cell 0 holding IfaceV{static type, value}.
+
+func rvMake(in *Interp, t types.Type, v Value) Value {
+	return AggV{IfaceV{typ: t, val: v}, PtrV{}, in.tt.Const(64, 0)}
+}
+
+func rvGet(v Value) IfaceV {
+	a, ok := v.(AggV)
+	if !ok || len(a) == 0 {
+		panic(unsupported("reflect.Value of unknown shape"))
+	}
+	iv, ok := a[0].(IfaceV)
+	if !ok {
+		panic(unsupported("reflect.Value not created by the engine's reflect model"))
+	}
+	return iv
+}
+
+func reflectKind(t types.Type) uint64 {
+	switch u := t.Underlying().(type) {
+	case *types.Basic:
+		switch u.Kind() {
+		case types.Bool:
+			return 1
+		case types.Int:
+			return 2
+		case types.Int8:
+			return 3
+		case types.Int16:
+			return 4
+		case types.Int32:
+			return 5
+		case types.Int64:
+			return 6
+		case types.Uint:
+			return 7
+		case types.Uint8:
+			return 8
+		case types.Uint16:
+			return 9
+		case types.Uint32:
+			return 10
+		case types.Uint64:
+			return 11
+		case types.Uintptr:
+			return 12
+		case types.Float32:
+			return 13
+		case types.Float64:
+			return 14
+		case types.String:
+			return 24
+		case types.UnsafePointer:
+			return 26
+		}
+	case *types.Array:
+		return 17
+	case *types.Chan:
+		return 18
+	case *types.Signature:
+		return 19
+	case *types.Interface:
+		return 20
+	case *types.Map:
+		return 21
+	case *types.Pointer:
+		return 22
+	case *types.Slice:
+		return 23
+	case *types.Struct:
+		return 25
+	}
+	return 0
+}
+
+func init() {
+	reg("reflect.ValueOf", func(in *Interp, g *Goroutine, fn *ssa.Function, args []Value) (Value, *tailCall) {
+		iv, _ := args[0].(IfaceV)
+		if iv.typ == nil {
+			return AggV{IfaceV{}, PtrV{}, in.tt.Const(64, 0)}, nil
+		}
+		return rvMake(in, iv.typ, iv.val), nil
+	})
+	reg("(reflect.Value).Kind", func(in *Interp, g *Goroutine, fn *ssa.Function, args []Value) (Value, *tailCall) {
+		iv := rvGet(args[0])
+		if iv.typ == nil {
+			return in.tt.Const(64, 0), nil
+		}
+		return in.tt.Const(64, reflectKind(iv.typ)), nil
+	})
+	reg("(reflect.Value).IsValid", func(in *Interp, g *Goroutine, fn *ssa.Function, args []Value) (Value, *tailCall) {
+		return in.tt.Bool(rvGet(args[0]).typ != nil), nil
+	})
+	reg("(reflect.Value).Len", func(in *Interp, g *Goroutine, fn *ssa.Function, args []Value) (Value, *tailCall) {
+		iv := rvGet(args[0])
+		return in.ci(in.lenOf(iv.val)), nil
+	})
+	reg("(reflect.Value).String", func(in *Interp, g *Goroutine, fn *ssa.Function, args []Value) (Value, *tailCall) {
+		iv := rvGet(args[0])
+		if s, ok := iv.val.(*StrV); ok {
+			return s, nil
+		}
+		return concStr("<" + iv.typ.String() + " Value>"), nil
+	})
+	reg("(reflect.Value).Int", func(in *Interp, g *Goroutine, fn *ssa.Function, args []Value) (Value, *tailCall) {
+		iv := rvGet(args[0])
+		t, ok := iv.val.(*Term)
+		if !ok {
+			panic(unsupported("reflect.Value.Int on non-int"))
+		}
+		return in.tt.SExt(t, 64), nil
+	})
+	reg("(reflect.Value).Index", func(in *Interp, g *Goroutine, fn *ssa.Function, args []Value) (Value, *tailCall) {
+		iv := rvGet(args[0])
+		i := in.concInt(args[1], "reflect.Value.Index")
+		st, ok := iv.typ.Underlying().(*types.Slice)
+		if !ok {
+			panic(unsupported("reflect.Value.Index on " + iv.typ.String()))
+		}
+		s := iv.val.(SliceV)
+		if i < 0 || i >= s.len {
+			in.goPanic("reflect: slice index out of range")
+		}
+		var ev Value
+		if s.esz == 1 {
+			ev = s.obj.cells[s.off+i]
+		} else {
+			a := make(AggV, s.esz)
+			copy(a, s.obj.cells[s.off+i*s.esz:])
+			ev = a
+		}
+		return rvMake(in, st.Elem(), ev), nil
+	})
+	reg("(reflect.Value).Elem", func(in *Interp, g *Goroutine, fn *ssa.Function, args []Value) (Value, *tailCall) {
+		iv := rvGet(args[0])
+		switch u := iv.typ.Underlying().(type) {
+		case *types.Interface:
+			inner, _ := iv.val.(IfaceV)
+			if inner.typ == nil {
+				return AggV{IfaceV{}, PtrV{}, in.tt.Const(64, 0)}, nil
+			}
+			return rvMake(in, inner.typ, inner.val), nil
+		case *types.Pointer:
+			p := iv.val.(PtrV)
+			if p.obj == nil {
+				return AggV{IfaceV{}, PtrV{}, in.tt.Const(64, 0)}, nil
+			}
+			return rvMake(in, u.Elem(), in.load(p, u.Elem())), nil
+		}
+		panic(unsupported("reflect.Value.Elem on " + iv.typ.String()))
+	})
+}
+
+func init() {
+	for _, n := range []string{"runtime.GC", "runtime.ReadMemStats", "runtime/debug.FreeOSMemory", "runtime/debug.SetGCPercent", "perkeep.org/internal/osutil.CPUUsage", "perkeep.org/internal/osutil.MemUsage"} {
+		reg(n, func(in *Interp, g *Goroutine, fn *ssa.Function, args []Value) (Value, *tailCall) {
+			if fn.Signature.Results().Len() == 1 {
+				return in.zero(fn.Signature.Results().At(0).Type()), nil
+			}
+			return nil, nil
+		})
+	}
+}
